@@ -107,3 +107,25 @@ func (s *Server) VerifC28Drained() bool {
 }
 
 var _ = context.Background
+
+// VerifC28Handle keeps the SEND executor reachable after Server.Stop swapped the
+// runtime out, so that the harness can still wait for the terminal drain.
+type VerifC28Handle struct{ r *asyncRuntime }
+
+func (s *Server) VerifC28Handle() *VerifC28Handle { return &VerifC28Handle{r: s.asyncRuntime()} }
+
+// DrainSends is Server.DrainSends on the captured runtime.
+func (h *VerifC28Handle) DrainSends(ctx context.Context) error {
+	if h == nil || h.r == nil {
+		return gatewaytypes.ErrGatewayClosed
+	}
+	return h.r.drainSends(ctx)
+}
+
+// Queued reports the executor's global depth counter.
+func (h *VerifC28Handle) Queued() int {
+	if h == nil || h.r == nil || h.r.send == nil {
+		return 0
+	}
+	return h.r.send.depth()
+}
